@@ -7,7 +7,10 @@ Ltac Zify.zify_post_hook ::= Z.to_euclidean_division_equations.
 
 (* ------------------------------------------------------------------ callbacks *)
 Lemma hkind_eqb_spec : forall a b, hkind_eqb a b = true <-> a = b.
-Proof. destruct a, b; cbn; split; intro H; try reflexivity; discriminate H. Qed.
+Proof.
+  destruct a, b; cbn; try (split; intro H; try reflexivity; discriminate H).
+  rewrite Z.eqb_eq. split; [intros ->; reflexivity | intros H; inversion H; reflexivity].
+Qed.
 
 Lemma nobj_eqb_spec : forall a b, nobj_eqb a b = true <-> a = b.
 Proof.
@@ -263,13 +266,64 @@ Proof.
 Qed.
 
 (* ------------------------------------------------------------------ node operations refine *)
-Lemma node_handlers_ref : forall o, node_handlers o = ref_handlers o.
-Proof. intros o. unfold node_handlers, ref_handlers. destruct (o_local o); reflexivity. Qed.
+Lemma extras_ref : forall txs o k, extras_from o k txs = ref_extras o k txs.
+Proof. induction txs as [|t r IH]; intros; cbn; [reflexivity|]. rewrite IH. reflexivity. Qed.
 
-Lemma ref_handlers_own : forall o c h, In (c, h) (ref_handlers o) -> exists k, h = HNode o k.
+Lemma node_handlers_ref : forall txs o, node_handlers txs o = ref_handlers txs o.
+Proof. intros. unfold node_handlers, ref_handlers. rewrite extras_ref. destruct (o_local o); reflexivity. Qed.
+
+Lemma ref_extras_own : forall txs o k c h, In (c, h) (ref_extras o k txs) -> exists k', h = HNode o k'.
 Proof.
-  intros o c h. unfold ref_handlers. destruct (o_local o); cbn; intros H;
+  induction txs as [|t r IH]; intros o k c h H; cbn in H; [destruct H|].
+  destruct H as [H|H]; [inversion H; eexists; reflexivity | eapply IH; eauto].
+Qed.
+
+Lemma ref_handlers_own : forall txs o c h, In (c, h) (ref_handlers txs o) -> exists k, h = HNode o k.
+Proof.
+  intros txs o c h. unfold ref_handlers. destruct (o_local o); cbn; intros H.
+  - repeat (destruct H as [H|H]; [inversion H; eexists; reflexivity|]); destruct H.
+  - destruct H as [H|H]; [inversion H; eexists; reflexivity|].
+    apply in_app_iff in H. destruct H as [H|H]; [eapply ref_extras_own; eauto|].
     repeat (destruct H as [H|H]; [inversion H; eexists; reflexivity|]); destruct H.
+Qed.
+
+Lemma ref_extras_app : forall txs o k tx,
+  ref_extras o k (txs ++ [tx]) = ref_extras o k txs ++ [(tx, HNode o (KSdoExtra (k + Z.of_nat (length txs))))].
+Proof.
+  induction txs as [|t r IH]; intros o k tx; cbn [ref_extras app].
+  - cbn. rewrite Z.add_0_r. reflexivity.
+  - rewrite IH. cbn [length]. rewrite Nat2Z.inj_succ.
+    replace (k + 1 + Z.of_nat (length r)) with (k + Z.succ (Z.of_nat (length r))) by lia. reflexivity.
+Qed.
+
+(* adding a channel only adds to the callbacks of a node *)
+Lemma ref_handlers_grow : forall txs tx o c h,
+  In (c, h) (ref_handlers txs o) -> In (c, h) (ref_handlers (txs ++ [tx]) o).
+Proof.
+  intros txs tx o c h. unfold ref_handlers. destruct (o_local o); auto.
+  rewrite ref_extras_app. intros H. destruct H as [H|H]; [left; exact H|right].
+  rewrite in_app_iff in H. rewrite !in_app_iff. tauto.
+Qed.
+
+Lemma ref_handlers_new : forall txs tx o, o_local o = false ->
+  In (tx, HNode o (KSdoExtra (Z.of_nat (length txs) + 1))) (ref_handlers (txs ++ [tx]) o).
+Proof.
+  intros txs tx o Hl. unfold ref_handlers. rewrite Hl, ref_extras_app. right.
+  rewrite !in_app_iff. left. right. left. do 3 f_equal. lia.
+Qed.
+
+Lemma nobj_eqb_refl : forall o, nobj_eqb o o = true.
+Proof. intros. apply nobj_eqb_spec. reflexivity. Qed.
+
+Lemma txs_of_add_tx : forall cm o tx x,
+  txs_of x (add_tx o tx cm) = if nobj_eqb x o then txs_of o cm ++ [tx] else txs_of x cm.
+Proof.
+  induction cm as [|[o' l] r IH]; intros o tx x; cbn.
+  - destruct (nobj_eqb x o); reflexivity.
+  - destruct (nobj_eqb o o') eqn:E; cbn.
+    + apply nobj_eqb_spec in E; subst o'. destruct (nobj_eqb x o); reflexivity.
+    + rewrite IH. destruct (nobj_eqb x o') eqn:E2; destruct (nobj_eqb x o) eqn:E3; auto.
+      apply nobj_eqb_spec in E2, E3. subst. rewrite nobj_eqb_refl in E. discriminate.
 Qed.
 
 Lemma associate_refines : forall chs m f, (forall x, abs m x = f x) ->
@@ -456,14 +510,16 @@ Qed.
 Record sim (s : net) (r : rnet) : Prop := {
   sim_map : forall x, abs (subs s) x = r_map r x;
   sim_nodes : forall n, lookup_node n (nodes s) = r_nodes r n;
-  sim_scan : scanned s = r_scan r }.
+  sim_scan : scanned s = r_scan r;
+  sim_chans : forall o, txs_of o (chans s) = r_chans r o }.
 
 (* invariant of the reference: no duplicates; a node callback is only ever subscribed to its own
-   COB-ID, and only while its node object is the one registered under its node id *)
+   COB-ID (for an SDO channel: that channel's tx id), and only while its node object is the one
+   registered under its node id *)
 Record inv (r : rnet) : Prop := {
   inv_nodup : forall c, NoDup (r_map r c);
   inv_nodes : forall c o k, In (HNode o k) (r_map r c) ->
-     r_nodes r (o_nid o) = Some o /\ In (c, HNode o k) (ref_handlers o) }.
+     r_nodes r (o_nid o) = Some o /\ In (c, HNode o k) (ref_handlers (r_chans r o) o) }.
 
 Lemma lookup_set_node : forall ns n o x,
   lookup_node x (set_node n o ns) = if x =? n then Some o else lookup_node x ns.
@@ -502,15 +558,16 @@ Qed.
 
 (* detaching the object registered under n *)
 Lemma detach_some : forall s r n old, sim s r -> inv r -> r_nodes r n = Some old ->
-  let cm := unsub_seq (node_handlers old) (subs s) in
-  let rm := r_unsub_seq (ref_handlers old) (r_map r) in
+  let cm := unsub_seq (node_handlers (txs_of old (chans s)) old) (subs s) in
+  let rm := r_unsub_seq (ref_handlers (r_chans r old) old) (r_map r) in
   (forall x, abs (fst cm) x = fst rm x) /\ res_ok (snd cm) = snd rm /\
   (forall x, NoDup (fst rm x)) /\ (forall x y, In y (fst rm x) -> In y (r_map r x)) /\
   (snd rm = true -> forall c k, ~ In (HNode old k) (fst rm c)).
 Proof.
-  intros s r n old S I Hn cm rm. subst cm rm. rewrite node_handlers_ref.
-  destruct (unsub_seq_refines (ref_handlers old) (subs s) (r_map r) (sim_map _ _ S) (inv_nodup _ I)) as [A B].
-  destruct (r_unsub_seq (ref_handlers old) (r_map r)) as [f1 ok] eqn:E. cbn in *.
+  intros s r n old S I Hn cm rm. subst cm rm. rewrite node_handlers_ref, (sim_chans _ _ S).
+  destruct (unsub_seq_refines (ref_handlers (r_chans r old) old) (subs s) (r_map r)
+              (sim_map _ _ S) (inv_nodup _ I)) as [A B].
+  destruct (r_unsub_seq (ref_handlers (r_chans r old) old) (r_map r)) as [f1 ok] eqn:E. cbn in *.
   repeat split; auto.
   - eapply r_unsub_seq_nodup; eauto. apply (inv_nodup _ I).
   - eapply r_unsub_seq_shrinks; eauto.
@@ -523,8 +580,8 @@ Qed.
 Lemma attach_inv : forall r o f1, inv r -> (forall x, NoDup (f1 x)) ->
   (forall x y, In y (f1 x) -> In y (r_map r x)) ->
   (forall old, r_nodes r (o_nid o) = Some old -> forall c k, ~ In (HNode old k) (f1 c)) ->
-  inv {| r_map := r_sub_all (ref_handlers o) f1; r_nodes := upd (r_nodes r) (o_nid o) (Some o);
-         r_scan := r_scan r |}.
+  inv {| r_map := r_sub_all (ref_handlers (r_chans r o) o) f1; r_nodes := upd (r_nodes r) (o_nid o) (Some o);
+         r_scan := r_scan r; r_chans := r_chans r |}.
 Proof.
   intros r o f1 I Hn Hs Hno. constructor; cbn.
   - apply r_sub_all_nodup; auto.
@@ -533,14 +590,15 @@ Proof.
       split; auto. unfold upd. destruct (o_nid o' =? o_nid o) eqn:E; auto.
       assert (E' : o_nid o' = o_nid o) by lia. rewrite E' in A.
       exfalso. eapply Hno; eauto.
-    + destruct (ref_handlers_own _ _ _ Hin) as [k' Hk]. inversion Hk; subst.
+    + destruct (ref_handlers_own _ _ _ _ Hin) as [k' Hk]. inversion Hk; subst.
       split; auto. unfold upd. rewrite Z.eqb_refl. reflexivity.
 Qed.
 
 Lemma detach_inv : forall r n f1 (ok : bool), inv r -> (forall x, NoDup (f1 x)) ->
   (forall x y, In y (f1 x) -> In y (r_map r x)) ->
   (ok = true -> forall old, r_nodes r n = Some old -> forall c k, ~ In (HNode old k) (f1 c)) ->
-  inv {| r_map := f1; r_nodes := if ok then upd (r_nodes r) n None else r_nodes r; r_scan := r_scan r |}.
+  inv {| r_map := f1; r_nodes := if ok then upd (r_nodes r) n None else r_nodes r; r_scan := r_scan r;
+         r_chans := r_chans r |}.
 Proof.
   intros r n f1 ok I Hn Hs Hno. constructor; cbn; auto.
   intros c o' k Hin. pose proof (Hs _ _ Hin) as H0. apply (inv_nodes _ I) in H0. destruct H0 as [A B].
@@ -557,27 +615,34 @@ Proof.
     + apply (sim_map _ _ S).
     + apply (sim_nodes _ _ S).
     + rewrite scan_step_ref, (sim_scan _ _ S). reflexivity.
+    + apply (sim_chans _ _ S).
   - rewrite <- (sim_map _ _ S c). unfold abs. destruct (lookup c (subs s)); reflexivity.
 Qed.
 
-Lemma inv_same_map : forall r sc, inv r -> inv {| r_map := r_map r; r_nodes := r_nodes r; r_scan := sc |}.
+Lemma inv_same_map : forall r sc, inv r ->
+  inv {| r_map := r_map r; r_nodes := r_nodes r; r_scan := sc; r_chans := r_chans r |}.
 Proof. intros r sc I. constructor; cbn; [apply (inv_nodup _ I) | apply (inv_nodes _ I)]. Qed.
 
 Lemma inv_shrunk : forall r f1, inv r -> (forall x, NoDup (f1 x)) ->
   (forall x y, In y (f1 x) -> In y (r_map r x)) ->
-  inv {| r_map := f1; r_nodes := r_nodes r; r_scan := r_scan r |}.
+  inv (with_map r f1).
 Proof.
   intros r f1 I Hn Hs. constructor; cbn; auto.
   intros c o k H. apply Hs in H. apply (inv_nodes _ I) in H. exact H.
 Qed.
 
+Lemma registered_ref : forall s r o, sim s r -> registered o s = ref_registered o r.
+Proof. intros s r o S. unfold registered, ref_registered. rewrite (sim_nodes _ _ S). reflexivity. Qed.
+
+Ltac sim_rest S := try apply (sim_nodes _ _ S); try apply (sim_scan _ _ S); try apply (sim_chans _ _ S).
+
 Lemma step_sim : forall o s r, sim s r -> inv r ->
   sim (fst (step o s)) (fst (ref_step o r)) /\ inv (fst (ref_step o r)) /\
   log_of (snd (step o s)) = snd (ref_step o r).
 Proof.
-  intros o s r S I. destruct o as [c u|c [h|]|o|n|c data ts|f|]; cbn [step ref_step].
+  intros o s r S I. destruct o as [c u|c [h|]|o|n|c data ts|f| |o rx tx]; cbn [step ref_step].
   - (* OSub *) cbn. split; [|split]; auto.
-    + constructor; cbn; [|apply (sim_nodes _ _ S)|apply (sim_scan _ _ S)].
+    + constructor; cbn; [|sim_rest S..].
       apply subscribe_refines. apply (sim_map _ _ S).
     + constructor; cbn.
       * apply r_sub_nodup. apply (inv_nodup _ I).
@@ -588,37 +653,39 @@ Proof.
     destruct (unsubscribe c (Some h) (subs s)) as [m'|k|k]; destruct (r_unsub1 c h (r_map r)) as [f'|] eqn:E;
       try contradiction; cbn.
     + split; [|split]; auto.
-      * constructor; cbn; [auto|apply (sim_nodes _ _ S)|apply (sim_scan _ _ S)].
+      * constructor; cbn; [auto|sim_rest S..].
       * apply inv_shrunk; auto.
         -- eapply r_unsub1_nodup; eauto. apply (inv_nodup _ I).
         -- intros x y H. apply (proj1 (r_unsub1_in _ _ _ _ E _ _)) in H. tauto.
     + auto.
   - (* OUnsub all *)
     pose proof (unsub_all_refines (subs s) (r_map r) c (sim_map _ _ S)) as U.
-    assert (I' : inv {| r_map := r_unsub_all c (r_map r); r_nodes := r_nodes r; r_scan := r_scan r |}).
+    assert (I' : inv (with_map r (r_unsub_all c (r_map r)))).
     { constructor; cbn; unfold r_unsub_all, upd.
       - intros x. destruct (x =? c); [constructor | apply (inv_nodup _ I)].
       - intros x o k. destruct (x =? c); [intros [] | apply (inv_nodes _ I)]. }
     destruct (unsubscribe c None (subs s)) as [m'|k|k]; try contradiction; cbn; (split; [|split]); auto;
-      constructor; cbn; auto; try apply (sim_nodes _ _ S); apply (sim_scan _ _ S).
+      constructor; cbn; auto; sim_rest S.
   - (* OAdd *)
     unfold setitem, ref_detach. rewrite (sim_nodes _ _ S).
     destruct (r_nodes r (o_nid o)) as [old|] eqn:En.
     + destruct (detach_some s r (o_nid o) old S I En) as [A [B [C [D E]]]].
-      destruct (unsub_seq (node_handlers old) (subs s)) as [m1 st] eqn:E1.
-      destruct (r_unsub_seq (ref_handlers old) (r_map r)) as [f1 ok] eqn:E2. cbn in A, B, C, D, E.
+      destruct (unsub_seq (node_handlers (txs_of old (chans s)) old) (subs s)) as [m1 st] eqn:E1.
+      destruct (r_unsub_seq (ref_handlers (r_chans r old) old) (r_map r)) as [f1 ok] eqn:E2.
+      cbn in A, B, C, D, E.
       destruct st as [u|k|k]; cbn in B; subst ok; cbn; (split; [|split]); auto.
-      * constructor; cbn; [| |apply (sim_scan _ _ S)].
-        -- unfold associate. rewrite node_handlers_ref. apply associate_refines; auto.
+      * constructor; cbn; [| |sim_rest S..].
+        -- unfold associate. rewrite node_handlers_ref, (sim_chans _ _ S). apply associate_refines; auto.
         -- intros x. rewrite lookup_set_node. unfold upd. rewrite (sim_nodes _ _ S). reflexivity.
       * apply attach_inv; auto. intros old' Ho; rewrite En in Ho; inversion Ho; subst; auto.
-      * constructor; cbn; [auto|apply (sim_nodes _ _ S)|apply (sim_scan _ _ S)].
+      * constructor; cbn; [auto|sim_rest S..].
       * apply inv_shrunk; auto.
-      * constructor; cbn; [auto|apply (sim_nodes _ _ S)|apply (sim_scan _ _ S)].
+      * constructor; cbn; [auto|sim_rest S..].
       * apply inv_shrunk; auto.
     + cbn. split; [|split]; auto.
-      * constructor; cbn; [| |apply (sim_scan _ _ S)].
-        -- unfold associate. rewrite node_handlers_ref. apply associate_refines. apply (sim_map _ _ S).
+      * constructor; cbn; [| |sim_rest S..].
+        -- unfold associate. rewrite node_handlers_ref, (sim_chans _ _ S). apply associate_refines.
+           apply (sim_map _ _ S).
         -- intros x. rewrite lookup_set_node. unfold upd. rewrite (sim_nodes _ _ S). reflexivity.
       * apply attach_inv; auto.
         -- apply (inv_nodup _ I).
@@ -627,12 +694,13 @@ Proof.
     unfold delitem, ref_detach. rewrite (sim_nodes _ _ S).
     destruct (r_nodes r n) as [old|] eqn:En.
     + destruct (detach_some s r n old S I En) as [A [B [C [D E]]]].
-      destruct (unsub_seq (node_handlers old) (subs s)) as [m1 st] eqn:E1.
-      destruct (r_unsub_seq (ref_handlers old) (r_map r)) as [f1 ok] eqn:E2. cbn in A, B, C, D, E.
+      destruct (unsub_seq (node_handlers (txs_of old (chans s)) old) (subs s)) as [m1 st] eqn:E1.
+      destruct (r_unsub_seq (ref_handlers (r_chans r old) old) (r_map r)) as [f1 ok] eqn:E2.
+      cbn in A, B, C, D, E.
       assert (I' := detach_inv r n f1 ok I C D
                       ltac:(intros Hok old' Ho; rewrite En in Ho; inversion Ho; subst; auto)).
       destruct st as [u|k|k]; cbn in B; subst ok; cbn; (split; [|split]); auto;
-        constructor; cbn; auto; try apply (sim_scan _ _ S); try apply (sim_nodes _ _ S).
+        constructor; cbn; auto; sim_rest S.
       intros x. rewrite lookup_del_node. unfold upd. rewrite (sim_nodes _ _ S). reflexivity.
     + cbn. auto.
   - (* ONotify *)
@@ -646,8 +714,30 @@ Proof.
     apply inv_same_map; auto.
   - (* OScanReset *)
     cbn. split; [|split]; auto.
-    + constructor; cbn; auto; [apply (sim_map _ _ S)|apply (sim_nodes _ _ S)].
+    + constructor; cbn; auto; [apply (sim_map _ _ S)|sim_rest S..].
     + apply inv_same_map; auto.
+  - (* OAddSdo *)
+    unfold add_sdo. destruct (o_local o) eqn:El; [cbn; auto|].
+    rewrite (registered_ref s r o S), (sim_chans _ _ S). cbn. split; [|split]; auto.
+    + constructor; cbn; [|sim_rest S..|].
+      * destruct (ref_registered o r); [|apply (sim_map _ _ S)].
+        apply subscribe_refines. apply (sim_map _ _ S).
+      * intros x. rewrite txs_of_add_tx, !(sim_chans _ _ S). reflexivity.
+    + assert (Hgrow : forall c o' k, r_nodes r (o_nid o') = Some o' /\ In (c, HNode o' k) (ref_handlers (r_chans r o') o') ->
+                r_nodes r (o_nid o') = Some o' /\
+                In (c, HNode o' k) (ref_handlers (if nobj_eqb o' o then r_chans r o ++ [tx] else r_chans r o') o')).
+      { intros c o' k [A B]. split; auto. destruct (nobj_eqb o' o) eqn:E; auto.
+        apply nobj_eqb_spec in E; subst o'. apply ref_handlers_grow; auto. }
+      constructor; cbn.
+      * destruct (ref_registered o r); [apply r_sub_nodup|]; apply (inv_nodup _ I).
+      * intros c o' k H. destruct (ref_registered o r) eqn:Er.
+        -- apply r_sub_in in H. destruct H as [H|[-> H]].
+           ++ apply Hgrow. apply (inv_nodes _ I); auto.
+           ++ inversion H; subst o' k. rewrite nobj_eqb_refl. split.
+              ** unfold ref_registered in Er. destruct (r_nodes r (o_nid o)) as [o'|]; [|discriminate].
+                 apply nobj_eqb_spec in Er. subst; reflexivity.
+              ** apply ref_handlers_new; auto.
+        -- apply Hgrow. apply (inv_nodes _ I); auto.
 Qed.
 
 Lemma run_sim : forall ops s r, sim s r -> inv r ->
@@ -708,7 +798,7 @@ Proof.
   { intros c' data ts H. unfold ref_deliver in H. cbn in H. apply in_map_iff in H.
     destruct H as [h [Heq Hh]]. inversion Heq; subst.
     apply (inv_nodes _ I) in Hh. destruct Hh as [A _]. rewrite <- (sim_nodes _ _ S) in A. contradiction. }
-  destruct o as [c0 u|c0 [h|]|o|n|c0 data ts|f|]; cbn [ref_step] in Hin.
+  destruct o as [c0 u|c0 [h|]|o|n|c0 data ts|f| |o rx tx]; cbn [ref_step] in Hin.
   - destruct Hin.
   - destruct (r_unsub1 c0 h (r_map r)); destruct Hin.
   - destruct Hin.
@@ -717,6 +807,7 @@ Proof.
   - eapply Hdel; eauto.
   - destruct (f_err f || f_remote f); [destruct Hin | eapply Hdel; eauto].
   - destruct Hin.
+  - destruct (o_local o); destruct Hin.
 Qed.
 
 Lemma step_keeps_unregistered : forall o s old,
@@ -724,22 +815,23 @@ Lemma step_keeps_unregistered : forall o s old,
   lookup_node (o_nid old) (nodes (fst (step o s))) <> Some old.
 Proof.
   intros o s old Hno Hne.
-  destruct o as [c0 u|c0 h|o|n|c0 data ts|f|]; cbn [step].
+  destruct o as [c0 u|c0 h|o|n|c0 data ts|f| |o rx tx]; cbn [step].
   - cbn. auto.
   - destruct (unsubscribe c0 h (subs s)); cbn; auto.
   - unfold setitem.
     destruct (match lookup_node (o_nid o) (nodes s) with
-              | Some old0 => unsub_seq (node_handlers old0) (subs s)
+              | Some old0 => unsub_seq (node_handlers (txs_of old0 (chans s)) old0) (subs s)
               | None => (subs s, Ok tt) end) as [m1 st].
     destruct st; cbn; auto.
     rewrite lookup_set_node. destruct (o_nid old =? o_nid o) eqn:E; auto.
     intros H. inversion H; subst. apply Hne; reflexivity.
   - unfold delitem. destruct (lookup_node n (nodes s)); cbn; auto.
-    destruct (unsub_seq (node_handlers n0) (subs s)) as [m1 st]. destruct st; cbn; auto.
+    destruct (unsub_seq (node_handlers (txs_of n0 (chans s)) n0) (subs s)) as [m1 st]. destruct st; cbn; auto.
     rewrite lookup_del_node. destruct (o_nid old =? n); auto. discriminate.
   - cbn. auto.
   - unfold listener. destruct (f_err f || f_remote f); cbn; auto.
   - cbn. auto.
+  - unfold add_sdo. destruct (o_local o); cbn; auto.
 Qed.
 
 Lemma silent_general : forall ops s r old, sim s r -> inv r ->
@@ -803,11 +895,12 @@ Proof.
   apply (silent_general ops2 _ _ old S1 I1); auto.
   destruct Hrr as [->|[o' [-> [Hn Hne]]]]; cbn [step] in *.
   - unfold delitem in *. rewrite Hreg in *.
-    destruct (unsub_seq (node_handlers old) (subs s)) as [m1 st]. destruct st; cbn in *; try discriminate.
+    destruct (unsub_seq (node_handlers (txs_of old (chans s)) old) (subs s)) as [m1 st].
+    destruct st; cbn in *; try discriminate.
     rewrite lookup_del_node, Z.eqb_refl. discriminate.
   - unfold setitem in *.
     destruct (match lookup_node (o_nid o') (nodes s) with
-              | Some old0 => unsub_seq (node_handlers old0) (subs s)
+              | Some old0 => unsub_seq (node_handlers (txs_of old0 (chans s)) old0) (subs s)
               | None => (subs s, Ok tt) end) as [m1 st].
     destruct st; cbn in *; try discriminate.
     rewrite lookup_set_node, Hn, Z.eqb_refl. intros H; inversion H; auto.
